@@ -1,8 +1,7 @@
 (* Props/C20.v — property theorems for C20 (configuration is validated and persists with the
    database); each closed by `exact` of a lemma proved in ConfigProofs.v, with Print
-   Assumptions beneath.  `storable c` is the guard: integers fit int64 (Go types), directory
-   names are valid UTF-8, and the ratio survives FormatFloat/ParseFloat (a decidable check;
-   see the float assumption in lib/props.py). *)
+   Assumptions beneath.  `storable c` is the guard: integers fit int64 (Go types) and the ratio survives
+   FormatFloat/ParseFloat (a decidable check; see the float assumption in lib/props.py). *)
 From KV Require Import Config ConfigProofs.
 From KV.gen Require Import ConfigFacts.
 From Coq Require Import ZArith.
@@ -61,7 +60,7 @@ Proof. exact open_uses_stored. Qed.
 Print Assumptions C20_open_same.
 
 Theorem C20_open_fresh : forall dflt d,
-  d_manifest d = None -> storable dflt = true -> validate dflt = None ->
+  d_manifest d = None -> d_other d = [] -> storable dflt = true -> validate dflt = None ->
   exists d1, open_db dflt d = (Ok dflt, d1) /\ open_db dflt d1 = (Ok dflt, d1) /\
              d_other d1 = d_other d.
 Proof. exact open_fresh_then_reopen. Qed.
@@ -74,25 +73,22 @@ Theorem C20_open_invalid : forall dflt d t e,
 Proof. exact open_invalid_fails. Qed.
 Print Assumptions C20_open_invalid.
 
-(* ---- refuted at full strength: what the guards above exclude really happens in the code ---- *)
+(* the manifest is missing over existing data: opening is refused, nothing is written *)
+Theorem C20_open_missing_over_data : forall dflt d,
+  d_manifest d = None -> d_other d <> [] ->
+  open_db dflt d = (Err ENotFoundNonEmpty, mkdir d).
+Proof. exact open_missing_manifest_over_data_refused. Qed.
+Print Assumptions C20_open_missing_over_data.
 
-Theorem C20_nonfinite_refuted : exists c,
-  validate c = None /\ in_range c = true /\
-  forall d, fst (save c d) = Err EMarshal /\ d_exists (snd (save c d)) = true /\
-            d_manifest (snd (save c d)) = d_manifest d.
-Proof. exact nonfinite_ratio_refuted. Qed.
-Print Assumptions C20_nonfinite_refuted.
+(* ---- the former findings C20-F1, F2 are excluded by validation itself ---- *)
 
-Theorem C20_invalid_utf8_refuted : exists c c',
-  validate c = None /\ in_range c = true /\ float_okb (c_compaction_ratio c) = true /\
-  load (snd (save c no_dir)) = Ok c' /\ c_wal_dir c' <> c_wal_dir c.
-Proof. exact invalid_utf8_refuted. Qed.
-Print Assumptions C20_invalid_utf8_refuted.
+Theorem C20_nonfinite_rejected : forall c,
+  (c_compaction_ratio c = FNaN \/ exists neg, c_compaction_ratio c = FInf neg) -> validate c <> None.
+Proof. exact nonfinite_ratio_rejected. Qed.
+Print Assumptions C20_nonfinite_rejected.
 
-Theorem C20_missing_manifest_refuted : exists c dflt d other,
-  validate c = None /\ storable c = true /\ other <> [] /\
-  d = mkDir true None None other /\
-  c_wal_dir c <> c_wal_dir dflt /\
-  fst (open_db dflt d) = Ok dflt /\ d_other (snd (open_db dflt d)) = other.
-Proof. exact missing_manifest_refuted. Qed.
-Print Assumptions C20_missing_manifest_refuted.
+Theorem C20_invalid_utf8_rejected : forall c,
+  utf8_valid (length (c_wal_dir c)) (c_wal_dir c) = false \/
+  utf8_valid (length (c_sst_dir c)) (c_sst_dir c) = false -> validate c <> None.
+Proof. exact invalid_utf8_rejected. Qed.
+Print Assumptions C20_invalid_utf8_rejected.
